@@ -2,7 +2,7 @@ SPECIFICATION GSpec
 CONSTANTS
   Starts <- AnyStart
   MaxData = 2
-  FragChoices <- F123
+  FragChoices <- F12
   MaxFaults = 0
   FaultKinds <- NoFaults
   MaxAuth = 0
